@@ -52,6 +52,28 @@ def g_partial(prop, bound, nkeys, mode='partial'):
                 exhaustive=True, tasks=[dict(module='contracts.partial', want=[prop], args=dict(shape=s, nkeys=nkeys, mode=mode)) for s in shs])
 
 
+def g_concile(prop):
+    kinds = [0, 1, 2, 3, 4]
+    return dict(name='_concile_meta', bound='none: loop-free unit, both operands fully symbolic, all 25 pairs of parameter kinds (tier P)',
+                exhaustive=True, tasks=[dict(module='contracts.concile', want=[prop], args=dict(kinds=(a, b))) for a in kinds for b in kinds])
+
+
+def g_retrieval(prop):
+    from contracts.retrieval import DEF_SHAPES
+    T = []
+    for sh in DEF_SHAPES:
+        for node in ('FunctionDef', 'AsyncFunctionDef', 'Assign', 'Expr'):
+            T.append(dict(mode='af_function', shape=sh, node=node))
+    for kind in ('function', 'instance'):
+        for node in ('FunctionDef', 'Assign'):
+            T.append(dict(mode='forged', kind=kind, node=node))
+    T += [dict(mode='af_ast'), dict(mode='as_forged')]
+    return dict(name='retrieval', bound='none (tier P): the inspected object is symbolic - presence of every attribute the units touch in the '
+                'instance dict / on the type, every external outcome (inspect.signature, getsource, ast.parse, forger, hint, descriptors) '
+                'and every exception class are solver variables; kinds of object: function, callable instance; class of the parsed node enumerated',
+                exhaustive=True, tasks=[dict(module='contracts.retrieval', want=[prop], args=a, cross=False) for a in T])
+
+
 def plan(prop, tier, seed=0):
     """returns list of job groups: dict(name, tasks, bound, exhaustive)"""
     q = tier == 'quick'
@@ -83,4 +105,8 @@ def plan(prop, tier, seed=0):
               g_forwards(prop, BS, 1, 60 if q else 1200, seed)]
         if prop in ('C08', 'C10', 'C11'):
             G += [g_partial(prop, B1, 1), g_partial(prop, B1 if q else (1, 2, 1, 3), 0, 'plain')]
+    if prop in ('C04', 'C07', 'C15', 'C16', 'C13'):
+        G += [g_retrieval(prop)]
+    if prop in ('C01', 'C02', 'C04', 'C08', 'C09', 'C10', 'C11', 'C15', 'C16', 'C19'):
+        G += [g_concile(prop)]       # the contract used as call summary, discharged on the real body
     return G
